@@ -322,3 +322,27 @@ pub fn replay(path: &str) -> i32 {
         }
     }
 }
+
+
+/// libFuzzer entry: bytes -> ClockCache call sequence.
+pub fn fuzz_entry(data: &[u8]) -> Result<(), String> {
+    let mut ops = Vec::new();
+    for c in data.chunks(3).take(400) {
+        let b = |j: usize| c.get(j).copied().unwrap_or(0);
+        ops.push(match b(0) % 16 {
+            0..=6 => COp::Insert { key: b(1) % 48, kb: 1 + (b(2) as u16 * 4) % 900, fill: b(2) },
+            7..=10 => COp::Get { key: b(1) % 48 },
+            11 | 12 => COp::Remove { key: b(1) % 48 },
+            13 => COp::Evict,
+            14 => COp::Adjust { high: b(1) % 5, low: b(2) % 4 },
+            _ => {
+                if b(1) % 8 == 0 {
+                    COp::Clear
+                } else {
+                    COp::Evict
+                }
+            }
+        });
+    }
+    run_ops(&ops, &mut CNotes::default())
+}
